@@ -8,6 +8,8 @@ Import ListNotations.
 Open Scope string_scope.
 
 Inductive cookie_site := TheConstructor | CallsConstructor | EmitsConstructed | CopyOfConstructed | NeverEmitted | TestSupport | UnreviewedCookie.
+Inductive cred_site := ValidateCall | SignCall | ValidatedByCaller | ValidatedInPlace | ValidatedByCallee | NamesOnly | LoggingOnly | CredTestSupport | UnreviewedCred.
+Inductive header_site := InjectorWrite | StripDelete | Flatten | GapAuthFromSession | FixedResponseHeader | UnreviewedHeader.
 Inductive forward_site := Declaration | GuardedAccessor | ParserTable | OptionDefault | ThroughParser | ParserUnderFlag | ParserCopied | ScopeFromOption | OptionRead | UnreviewedForward.
 
 Definition expected_cookie_surface : list (string * cookie_site) := [
@@ -70,7 +72,49 @@ Definition expected_forwarded_surface : list (string * forward_site) := [
   ("pkg/validation/options.go|Validate|parser|GetRealClientIPParser under-flag=true", ParserUnderFlag)  (* parser created / stored / read only under if o.ReverseProxy *)
 ].
 
+Definition expected_credential_surface : list (string * cred_site) := [
+  ("oauthproxy.go|LoggingCSRFCookiesInOAuthCallback|read-all|req.Cookies()", LoggingOnly);  (* names are logged when the CSRF check failed; nothing is decided *)
+  ("pkg/cookies/csrf.go|LoadCSRFCookie|read-all|req.Cookies()", ValidatedByCallee);  (* candidates are filtered by name and handed to decodeCSRFCookie, which validates *)
+  ("pkg/cookies/csrf.go|csrf.encodeCookie|sign|encryption.SignedValue", SignCall);  (* a call of encryption.SignedValue (modelled: Model/Signed.v signed_value) *)
+  ("pkg/cookies/csrf.go|decodeCSRFCookie|validate|encryption.Validate", ValidateCall);  (* a call of encryption.Validate (modelled: Model/Signed.v validate) *)
+  ("pkg/sessions/cookie/session_store.go|SessionStore.Load|validate|encryption.Validate", ValidateCall);  (* a call of encryption.Validate (modelled: Model/Signed.v validate) *)
+  ("pkg/sessions/cookie/session_store.go|SessionStore.Clear|read-all|req.Cookies()", NamesOnly);  (* only cookie NAMES are used, to delete left-over parts *)
+  ("pkg/sessions/cookie/session_store.go|SessionStore.setSessionCookie|read-all|req.Cookies()", NamesOnly);  (* only cookie NAMES are used, to delete left-over parts *)
+  ("pkg/sessions/cookie/session_store.go|responseCookies|read-all|(&http.Response{..}).Cookies()", NamesOnly);  (* only cookie NAMES are used, to delete left-over parts *)
+  ("pkg/sessions/cookie/session_store.go|SessionStore.makeSessionCookie|sign|encryption.SignedValue", SignCall);  (* a call of encryption.SignedValue (modelled: Model/Signed.v signed_value) *)
+  ("pkg/sessions/cookie/session_store.go|loadCookie|read|req.Cookie(cookieName)", ValidatedByCaller);  (* the cookie (or its joined parts) is returned to SessionStore.Load, which validates it before decoding *)
+  ("pkg/sessions/cookie/session_store.go|loadCookie|read|req.Cookie(splitCookieName(cookieName, count))", ValidatedByCaller);  (* the cookie (or its joined parts) is returned to SessionStore.Load, which validates it before decoding *)
+  ("pkg/sessions/persistence/ticket.go|decodeTicketFromRequest|read|req.Cookie(cookieOpts.Name)", ValidatedInPlace);  (* validated three lines below, before the ticket is decoded *)
+  ("pkg/sessions/persistence/ticket.go|decodeTicketFromRequest|validate|encryption.Validate", ValidateCall);  (* a call of encryption.Validate (modelled: Model/Signed.v validate) *)
+  ("pkg/sessions/persistence/ticket.go|ticket.makeCookie|sign|encryption.SignedValue", SignCall);  (* a call of encryption.SignedValue (modelled: Model/Signed.v signed_value) *)
+  ("pkg/sessions/tests/session_store_tests.go|CheckCookieOptions|read-all|in.response.Result().Cookies()", CredTestSupport);  (* helper package imported only by _test files *)
+  ("pkg/sessions/tests/session_store_tests.go|PersistentSessionStoreInterfaceTests|read-all|saveResp.Result().Cookies()", CredTestSupport);  (* helper package imported only by _test files *)
+  ("pkg/sessions/tests/session_store_tests.go|PersistentSessionStoreInterfaceTests|read-all|resp.Result().Cookies()", CredTestSupport);  (* helper package imported only by _test files *)
+  ("pkg/sessions/tests/session_store_tests.go|PersistentSessionStoreInterfaceTests|read-all|resp.Result().Cookies()", CredTestSupport);  (* helper package imported only by _test files *)
+  ("pkg/sessions/tests/session_store_tests.go|SessionStoreInterfaceTests|sign|encryption.SignedValue", CredTestSupport);  (* helper package imported only by _test files *)
+  ("pkg/sessions/tests/session_store_tests.go|SessionStoreInterfaceTests|read-all|saveResp.Result().Cookies()", CredTestSupport);  (* helper package imported only by _test files *)
+  ("pkg/sessions/tests/session_store_tests.go|SessionStoreInterfaceTests|read-all|saveResp.Result().Cookies()", CredTestSupport);  (* helper package imported only by _test files *)
+  ("pkg/sessions/tests/session_store_tests.go|SessionStoreInterfaceTests|read-all|resp.Result().Cookies()", CredTestSupport)  (* helper package imported only by _test files *)
+].
+
+Definition expected_header_surface : list (string * header_site) := [
+  ("oauthproxy.go|OAuthProxy.UserInfo|rw.Header().Set|'Content-Type'", FixedResponseHeader);  (* fixed response header (content type, cache control): no identity *)
+  ("oauthproxy.go|prepareNoCache|w.Header().Set|k", FixedResponseHeader);  (* fixed response header (content type, cache control): no identity *)
+  ("oauthproxy.go|OAuthProxy.addHeadersForProxying|rw.Header().Set|'GAP-Auth'", GapAuthFromSession);  (* response header with the session user / e-mail, only after authentication; not an operator-configured name *)
+  ("oauthproxy.go|OAuthProxy.addHeadersForProxying|rw.Header().Set|'GAP-Auth'", GapAuthFromSession);  (* response header with the session user / e-mail, only after authentication; not an operator-configured name *)
+  ("oauthproxy.go|OAuthProxy.errorJSON|rw.Header().Set|'Content-Type'", FixedResponseHeader);  (* fixed response header (content type, cache control): no identity *)
+  ("pkg/header/injector.go|newSecretInjector|header.Add|name", InjectorWrite);  (* the injector modelled in Model/Headers.v: one value per configured source, under the configured name *)
+  ("pkg/header/injector.go|newClaimInjector|header.Add|name", InjectorWrite);  (* the injector modelled in Model/Headers.v: one value per configured source, under the configured name *)
+  ("pkg/header/injector.go|newClaimInjector|header.Add|name", InjectorWrite);  (* the injector modelled in Model/Headers.v: one value per configured source, under the configured name *)
+  ("pkg/header/injector.go|newClaimInjector|header.Add|name", InjectorWrite);  (* the injector modelled in Model/Headers.v: one value per configured source, under the configured name *)
+  ("pkg/middleware/headers.go|flattenHeaders|headers.Set|name", Flatten);  (* comma-joins the values of a name after injection (Model/Headers.v flatten) *)
+  ("pkg/middleware/headers.go|stripHeaders|req.Header.Del|header", StripDelete);  (* deletes the configured, non-preserved names before injection (Model/Headers.v strip) *)
+  ("pkg/upstream/http.go|httpUpstreamProxy.ServeHTTP|req.Header.Set|'GAP-Auth'", GapAuthFromSession)  (* overwrites any client GAP-Auth with the value set above (empty without a session) *)
+].
+
 Definition cookie_reviewed (c : cookie_site) : bool := match c with UnreviewedCookie => false | _ => true end.
 Definition forward_reviewed (c : forward_site) : bool := match c with UnreviewedForward => false | _ => true end.
+Definition cred_reviewed (c : cred_site) : bool := match c with UnreviewedCred => false | _ => true end.
+Definition header_reviewed (c : header_site) : bool := match c with UnreviewedHeader => false | _ => true end.
 (* an emission site hands the response a cookie that came out of the constructor *)
 Definition is_emission (e : string * cookie_site) : bool := match snd e with EmitsConstructed => true | _ => false end.
